@@ -17,6 +17,16 @@ pub fn main(args: &[String]) -> i32 {
             }
             0
         }
+        Some("classify") => {
+            for a in &args[1..] {
+                let b = crate::bytes::unesc(a).unwrap();
+                use std::os::unix::ffi::OsStringExt;
+                let name = std::ffi::OsString::from_vec(b);
+                println!("{:?} true  -> {:?}", a, crate::props::c16::observed(&name, true));
+                println!("{:?} false -> {:?}", a, crate::props::c16::observed(&name, false));
+            }
+            0
+        }
         _ => {
             eprintln!("unknown tool");
             2
